@@ -2,7 +2,7 @@
 
 (A) TLC enumerates every body up to MaxLen bytes over {0, 1, 2, 3, 255} (781 quick / 3 906 thorough), checks Progress (the parse consumes
     at least one byte per item: it terminates), RoundTrip and TagLengths, and prints the table (body, well-formed?, tags).
-(B) spec -> code: every row is replayed on the real TaggingMetadata / RoutingMetadata: parse() runs under an interval timer and must return
+(B) spec -> code: every row is replayed on the real TaggingMetadata / RoutingMetadata: parse() runs under an interval timer (CPU time of this process, not wall-clock time) and must return
     (C12.terminates); for a well-formed body the tags must be exactly the table's and serialize() must give the body back (C18.tagging_*);
     for a body that is not well-formed the result is left open (DRIFT note if it differs from the lenient reading of the specification).
     The same bodies are then wrapped into a composite-metadata routing entry and handed to RoutingRequestHandler.request_response."""
@@ -44,7 +44,7 @@ def check(v, prop):
     from rsocket.extensions.tagging import TaggingMetadata
     from rsocket.extensions.composite_metadata import CompositeMetadata
     from rsocket.extensions.mimetypes import WellKnownMimeTypes
-    old = signal.signal(signal.SIGALRM, _alarm)
+    old = signal.signal(signal.SIGVTALRM, _alarm)
     n = drift = stuck = 0
     try:
         for row in rows:
@@ -54,7 +54,7 @@ def check(v, prop):
                                    ('TaggingMetadata', lambda: TaggingMetadata(WellKnownMimeTypes.MESSAGE_RSOCKET_ROUTING.value.name))):
                 n += 1
                 obj = make()
-                signal.setitimer(signal.ITIMER_REAL, 3.0)
+                signal.setitimer(signal.ITIMER_VIRTUAL, 3.0)
                 outcome = None
                 try:
                     obj.parse(body)
@@ -64,12 +64,12 @@ def check(v, prop):
                 except Exception as ex:
                     outcome = ('raised', type(ex).__name__)
                 finally:
-                    signal.setitimer(signal.ITIMER_REAL, 0)
+                    signal.setitimer(signal.ITIMER_VIRTUAL, 0)
                 sig = {'model': 'Tagging', 'class': cls_name, 'wf': row['wf']}
                 rp = {'kind': 'tagging', 'body': body.hex(), 'class': cls_name}
                 if outcome[0] == 'stuck':
                     stuck += 1
-                    v.add_failure('C12.terminates', sig, '%s.parse(%s) did not return within 3 s' % (cls_name, body.hex() or "b''"), rp)
+                    v.add_failure('C12.terminates', sig, '%s.parse(%s) did not return within 3 s of CPU time' % (cls_name, body.hex() or "b''"), rp)
                     if stuck >= 6:
                         return
                     continue
@@ -88,24 +88,24 @@ def check(v, prop):
             # the same body as the routing entry of a composite metadata, parsed the way RoutingRequestHandler does
             n += 1
             entry = bytes([0x80 | 0x7E]) + len(body).to_bytes(3, 'big') + body
-            signal.setitimer(signal.ITIMER_REAL, 3.0)
+            signal.setitimer(signal.ITIMER_VIRTUAL, 3.0)
             try:
                 cm = CompositeMetadata()
                 cm.parse(entry)
             except _Stuck:
                 stuck += 1
                 v.add_failure('C12.terminates', {'model': 'Tagging', 'class': 'CompositeMetadata', 'wf': row['wf']},
-                              'CompositeMetadata.parse of a routing entry with body %s did not return within 3 s' % (body.hex() or "b''"),
+                              'CompositeMetadata.parse of a routing entry with body %s did not return within 3 s of CPU time' % (body.hex() or "b''"),
                               {'kind': 'tagging', 'body': body.hex(), 'class': 'CompositeMetadata'})
                 if stuck >= 6:
                     return
             except Exception:
                 pass
             finally:
-                signal.setitimer(signal.ITIMER_REAL, 0)
+                signal.setitimer(signal.ITIMER_VIRTUAL, 0)
     finally:
-        signal.setitimer(signal.ITIMER_REAL, 0)
-        signal.signal(signal.SIGALRM, old)
+        signal.setitimer(signal.ITIMER_VIRTUAL, 0)
+        signal.signal(signal.SIGVTALRM, old)
         logging.disable(logging.NOTSET)
         v.add('tagging_rows_replayed', n)
         v.add('evaluations', n)
